@@ -88,6 +88,10 @@ def concretise(req):
         api['yaml'] = {'type': 'google.api.Service', 'config_version': 3, 'name': 'lib.example.com',
                        'publishing': {'library_settings': [{'version': pkg, 'python_settings': {'common': {
                            'selective_gapic_generation': {'methods': [first], 'generate_omitted_as_internal': True}}}}]}}
+    if req.get('extra') == 'nounv':
+        api['yaml'] = {'type': 'google.api.Service', 'config_version': 3, 'name': 'lib.example.com',
+                       'publishing': {'library_settings': [{'version': pkg, 'python_settings': {'experimental_features': {
+                           'unversioned_package_disabled': True}}}]}}
     return api, ','.join(items)
 
 
